@@ -196,3 +196,86 @@ def fold_constants(e: ast.AST):
             v = fold_constants(e.args[0])
             return math.sqrt(v) if v is not None and v >= 0 else None
     return None
+
+
+def sym_exec(stmts, nz: Normalizer):
+    """Symbolically execute straight-line assignments (incl. augmented ones), updating nz.env. Returns nz.env."""
+    for st in stmts:
+        if isinstance(st, ast.Assign) and len(st.targets) == 1 and isinstance(st.targets[0], ast.Name):
+            nz.env[st.targets[0].id] = nz.tosym(st.value)
+        elif isinstance(st, ast.AnnAssign) and isinstance(st.target, ast.Name) and st.value is not None:
+            nz.env[st.target.id] = nz.tosym(st.value)
+        elif isinstance(st, ast.AugAssign) and isinstance(st.target, ast.Name):
+            cur = nz.env.get(st.target.id, sym(st.target.id))
+            v = nz.tosym(st.value)
+            if isinstance(st.op, ast.Add):
+                cur = cur + v
+            elif isinstance(st.op, ast.Sub):
+                cur = cur - v
+            elif isinstance(st.op, ast.Mult):
+                cur = cur * v
+            elif isinstance(st.op, ast.Div):
+                cur = cur / v
+            elif isinstance(st.op, ast.Pow):
+                cur = cur ** v
+            else:
+                raise NFUnsupported(f"augmented operator {type(st.op).__name__}")
+            nz.env[st.target.id] = cur
+        elif isinstance(st, ast.Expr) and isinstance(st.value, ast.Constant):
+            continue
+        else:
+            return nz.env
+    return nz.env
+
+
+class GuardUnsupported(Exception):
+    pass
+
+
+def eval_guard(e: ast.AST, subst, call_hook=None):
+    """Evaluate a guard expression (comparisons, and/or/not, + - * // % on numbers) under a substitution
+    `subst`: normalised source text of a sub-expression -> number | bool | None.  No names are looked up elsewhere."""
+    t = U(e)
+    if t in subst:
+        return subst[t]
+    if isinstance(e, ast.Constant):
+        return e.value
+    if isinstance(e, ast.BoolOp):
+        vals = [eval_guard(v, subst, call_hook) for v in e.values]
+        return any(vals) if isinstance(e.op, ast.Or) else all(vals)
+    if isinstance(e, ast.UnaryOp):
+        v = eval_guard(e.operand, subst, call_hook)
+        if isinstance(e.op, ast.Not):
+            return not v
+        if isinstance(e.op, ast.USub):
+            return -v
+    if isinstance(e, ast.BinOp):
+        a, b = eval_guard(e.left, subst, call_hook), eval_guard(e.right, subst, call_hook)
+        import operator as o
+        ops = {ast.Add: o.add, ast.Sub: o.sub, ast.Mult: o.mul, ast.Div: o.truediv, ast.FloorDiv: o.floordiv, ast.Mod: o.mod, ast.Pow: o.pow}
+        if type(e.op) in ops:
+            return ops[type(e.op)](a, b)
+    if isinstance(e, ast.Compare):
+        import operator as o
+        ops = {ast.Lt: o.lt, ast.LtE: o.le, ast.Gt: o.gt, ast.GtE: o.ge, ast.Eq: o.eq, ast.NotEq: o.ne,
+               ast.Is: lambda a, b: a is b, ast.IsNot: lambda a, b: a is not b}
+        l = eval_guard(e.left, subst, call_hook)
+        for op, c in zip(e.ops, e.comparators):
+            r = eval_guard(c, subst, call_hook)
+            if type(op) not in ops:
+                raise GuardUnsupported(U(e))
+            if not ops[type(op)](l, r):
+                return False
+            l = r
+        return True
+    if isinstance(e, ast.Call) and call_hook is not None:
+        r = call_hook(e)
+        if r is not NotImplemented:
+            return r
+    if isinstance(e, ast.IfExp):
+        return eval_guard(e.body if eval_guard(e.test, subst, call_hook) else e.orelse, subst, call_hook)
+    raise GuardUnsupported(t)
+
+
+def numeric_constants(e: ast.AST):
+    return [abs(n.value) for n in ast.walk(e) if isinstance(n, ast.Constant) and isinstance(n.value, (int, float)) and not isinstance(n.value, bool)]
